@@ -343,6 +343,17 @@ func TestMain(m *testing.M) {
 	if d, err := os.MkdirTemp(base, "p"); err == nil {
 		privateTmp = d
 		_ = os.Setenv("TMPDIR", d)
+		// relative paths in generated configurations (e.g. the default concurrent audit-log directory)
+		// land in the private directory; native fuzzing needs the package directory for its corpus
+		fuzzing := false
+		for _, a := range os.Args {
+			if strings.HasPrefix(a, "-test.fuzz") {
+				fuzzing = true
+			}
+		}
+		if !fuzzing {
+			_ = os.Chdir(d)
+		}
 	}
 	code := m.Run()
 	writeStats()
